@@ -380,4 +380,27 @@ def _mp_trap_rs(inp):
     return ("st:0:1" in str(inp.get("program", "")).split() and obs[:2] == ["exc", "ComplexResult"] and ref[:1] == ["v"])
 
 
+
+@predicate("nsum_tiny_sum_absolute_tolerance")
+def _nsum_tiny(inp):
+    """nsum's convergence test is absolute (eps): a multi-dimensional sum whose finite geometric factors make it tiny (here
+    below 2^-20) is returned with an absolute error near eps, i.e. a relative error far above 2^(10-p)"""
+    from fractions import Fraction
+    if inp.get("shape") != "fin_fin_inf":
+        return False
+    d = (inp.get("sers") or [{}])[0]
+    if d.get("ser") != "geom":
+        return False
+    r_, c_ = abs(Fraction(d["r"])), abs(Fraction(d["c"]))
+    return 0 < r_ < 1 and c_ * r_ ** (int(inp["a"]) + int(inp["a2"])) < Fraction(1, 2 ** 20)
+
+
+
+@predicate("eigsy_complex_typed_matrix")
+def _eigsy_cplx(inp):
+    t = inp.get("task") or {}
+    res = inp.get("result") or {}
+    return t.get("op") == "eigsy" and bool(t.get("cplx")) and res.get("exc") == "AttributeError"
+
+
 import special_findings  # noqa: E402  (C18/C19/C22 predicates; must stay at the end of this file)
